@@ -59,6 +59,26 @@ def genOps2 : List (String × R String) := [
   ("g:hrp_expand", do let h ← chars; pure (ansG ints (Gen.bech32_hrp_expand h))),
   ("g:verify_checksum", do let h ← chars; let d ← listOf int; pure (ansG (optS toString) (Gen.bech32_verify_checksum h d))),
   ("g:create_checksum", do let h ← chars; let d ← listOf int; let sp ← int; pure (ansG ints (Gen.bech32_create_checksum h d sp))),
+  ("g:b32_encode", do
+      let h ← chars; let d ← listOf int; let sp ← int
+      pure (ansG (fun (cs : List Char) => ints (cs.map fun c => (c.toNat : Int))) (Gen.bech32_encode h d sp))),
+  ("g:b32_decode", do
+      let b ← chars
+      pure (ansG (fun (r : Option (List Char) × Option (List Int) × Option Int) => match r with
+        | (some h, some d, some sp) => s!"{ints (h.map fun c => (c.toNat : Int))} {ints d} {sp}"
+        | (none, none, none) => "none"
+        | _ => "mixed") (Gen.bech32_decode b))),
+  ("g:seg_decode", do
+      let h ← chars; let a ← chars
+      pure (ansG (fun (r : Option Int × Option (List Int)) => match r with
+        | (some v, some d) => s!"{v} {ints d}"
+        | (none, none) => "none"
+        | _ => "mixed") (Gen.segwit_decode h a))),
+  ("g:seg_encode", do
+      let h ← chars; let v ← int; let d ← listOf int
+      pure (ansG (fun (r : Option (List Char)) => match r with
+        | some cs => ints (cs.map fun c => (c.toNat : Int))
+        | none => "none") (Gen.segwit_encode h v d))),
   ("g:convertbits", do let d ← listOf int; let f ← int; let t ← int; let p ← bool; pure (ansG (optS ints) (Gen.convertbits d f t p)))
 ]
 
